@@ -180,6 +180,12 @@ namespace cs
                             --ok_n;
                             continue;
                         }
+                        // a composable request must stay composable all the way down: a leaf asked through its throwing
+                        // interface may grow or throw inside a function that promises neither
+                        if (r.fam == COMP && (c.op == 'n' || c.op == 'a'))
+                            violate("C09,C03", "try_used_throwing_interface",
+                                    "a try_ function of the composition called the throwing %s of leaf %d",
+                                    c.op == 'n' ? "allocate_node" : "allocate_array", c.leaf);
                         if (++per_leaf[c.leaf] > 1)
                             violate("C09", "request_repeated", "one allocation through the composition made %d "
                                                                "requests to leaf %d",
